@@ -523,11 +523,15 @@ class JSONPatch:
 
     def _ensure_pointer(self, path: Union[str, JSONPointer]) -> JSONPointer:
         if isinstance(path, str):
-            return JSONPointer(
-                path,
-                unicode_escape=self.unicode_escape,
-                uri_decode=self.uri_decode,
-            )
+            try:
+                return JSONPointer(
+                    path,
+                    unicode_escape=self.unicode_escape,
+                    uri_decode=self.uri_decode,
+                )
+            except JSONPointerError as err:
+                # The same error class a patch document with this path gives.
+                raise JSONPatchError(f"{err} ({path})") from err
         assert isinstance(path, JSONPointer)
         return path
 
